@@ -117,6 +117,19 @@ def register(gen, T):
             "if let Some(binding_group) = attribute_result.binding_group_override { cb_ir.lang_binding.set = Some(binding_group); } "
             "if attribute_result.is_bindless {")
 
+        # the annotation loop of one MEMBER of a cbuffer (Model.SlotsFront.memberAnnotations): it runs for every member
+        # before the block is registered and writes nothing but the member's packoffset
+        cb_member_loop = (
+            "let mut offset = None; for location_annotation in &def.location_annotations { match location_annotation { "
+            "ast::LocationAnnotation::Register(_) => { return Err(TyperError::UnexpectedRegisterAnnotation(name.location)); } "
+            "ast::LocationAnnotation::PackOffset(packoffset) => { if offset.is_some() { return Err(TyperError::UnexpectedPackOffset(name.location)); } "
+            "offset = Some(packoffset.clone()); } "
+            "ast::LocationAnnotation::Semantic(_) => { return Err(TyperError::UnexpectedSemantic(name.location)); } } } "
+            "members.push(ir::ConstantVariable { name: name.clone(), type_id, offset, }); } } "
+            "let id = ir::ConstantBufferId(context.module.cbuffer_registry.len() as u32);")
+        m = re.search(r'let binding_params = match args\.target \{.*?\};', comp)
+        binding_params_text = m.group(0) if m else ""
+
         m = re.search(r'const\s+ARGUMENT_BUFFER_NAMES\s*:\s*&\[&str\]\s*=\s*&\[(.*?)\];', msl, re.S)
         if not m:
             raise ExtractError("ARGUMENT_BUFFER_NAMES not found")
@@ -227,6 +240,22 @@ def register(gen, T):
                 and ty_cb.endswith(CB_BINDLESS_TAIL)
                 and len(re.findall(r'lang_binding', ty_cb)) == 6
                 and len(re.findall(r'parse_attributes_for_global\(', normws(ty_src))) == 3),
+            ("cbufferMemberLoopShape", lambda: ty_cb.count(cb_member_loop) == 1
+                and ty_cb.startswith("let attribute_result = parse_attributes_for_global(&cb.attributes, context)?; "
+                                     "let cb_name = cb.name.clone(); let mut members = Vec::new(); for member in &cb.members {")
+                and ty_cb.find(cb_member_loop) < ty_cb.find(cb_ann_loop)
+                and len(re.findall(r'location_annotations', ty_cb)) == 2),
+            # the other compile() options never reach the binding: binding_params reads the target and
+            # support_buffer_address only, the layout check borrows the module immutably, the defines go to the
+            # preprocessor, source_info is handed to build_pipeline which reads it in the MetalBytecode block only
+            ("optionsNeverReachBinding", lambda: re.findall(r'args\.[a-z_]+', binding_params_text) == ["args.target", "args.support_buffer_address"]
+                and len(re.findall(r'args\.validate_layout_consistency', comp)) == 1
+                and "if args.validate_layout_consistency && let Err(err) = ir::layout_checker::check_layout(&ir) { return Err(" in comp
+                and re.findall(r'args\.defines', comp) == ["args.defines"] and "defines.extend(args.defines);" in comp
+                and len(re.findall(r'source_info', comp)) == 2 and len(re.findall(r'source_info', bp)) == 1
+                and bp.find("source_info") > bp.find("Target::MetalBytecode")
+                # (`args.push` = the local argument vector of the Metal compiler invocation, which shadows `args` there)
+                and sorted(set(re.findall(r'args\.[a-z_]+', bp))) == ["args.push", "args.target"]),
             ("typerDefaultBindGroupProperty", lambda: re.search(r'default_bind_group_index: 0,', ty_pipes) is not None
                 and re.search(r'"DefaultBindGroup" => \{ let value = extract_uint32\(&property\.value, context\)\?; pipeline\.default_bind_group_index = value; \}', ty_pipes) is not None
                 and len(re.findall(r'default_bind_group_index', ty_pipes)) == 2),
